@@ -555,6 +555,27 @@ def returndata_cases():
 
     out.append(Case(f"{PROP}/sevm.CallContext.last_subcall", "every trace of up to 4 elements over {sub-frame, storage read, storage write, log}", harness_last, replay=replay_last_subcall, sources=("halmos.sevm:CallContext.last_subcall",)))
 
+    def harness_copy(interp):
+        """the return area of a *CALL: min(ret_size, len(returndata)) bytes of the return data go to memory at ret_loc, nothing else is written
+        (a return area LONGER than the data leaves its tail as it was; it is not filled from beyond the data)"""
+        ctx = interp.ctx
+        for actual in (0, 3, 32, 40):
+            for ret_size in (0, 3, 32, 40, 64):
+                rd = ByteVec(bytes(range(1, actual + 1)))
+                writes = []
+                st = NS(set_mslice=lambda loc, data: writes.append((loc, data)))
+                ex = NS(st=st)
+                interp.call(hs.copy_returndata_to_memory, [rd, 7, ret_size, ex], {})
+                n = min(actual, ret_size)
+                if n == 0:
+                    ctx.oblige(f"copy_returndata_to_memory[data {actual}, area {ret_size}]: nothing to copy, nothing written", z3.BoolVal(writes == [] or all(len(d) == 0 for _, d in writes)))
+                else:
+                    ok = len(writes) == 1 and writes[0][0] == 7 and len(writes[0][1]) == n and writes[0][1].unwrap() == bytes(range(1, n + 1))
+                    ctx.oblige(f"copy_returndata_to_memory[data {actual}, area {ret_size}]: exactly the first min(area, data) bytes of the return data are written at ret_loc", z3.BoolVal(ok), info={"writes": str([(l, len(d)) for l, d in writes])})
+                ctx.oblige(f"copy_returndata_to_memory[data {actual}, area {ret_size}]: the return data itself is not modified", z3.BoolVal(len(rd) == actual))
+
+    out.append(Case(f"{PROP}/sevm.copy_returndata_to_memory", "return data of 0/3/32/40 bytes into areas of 0/3/32/40/64 bytes", harness_copy, sources=("halmos.sevm:copy_returndata_to_memory",)))
+
     for kind in ("no sub-frame", "call returned", "call failed", "creation succeeded", "creation failed"):
 
         def harness_rd(interp, kind=kind):
@@ -590,7 +611,10 @@ def branch_ownership_ref():
     from contracts import c02
     from contracts.common import rewrap
 
-    return rewrap(PROP, c02.path_cases(), "fork-owns-its-tables", lambda c: "create_branch" in c.unit)
+    from contracts import c01
+
+    # ... and a second symbolic decision on a sibling path (insufficient funds, say) is asked of a solver that holds that path's conditions only
+    return rewrap(PROP, c02.path_cases(), "fork-owns-its-tables", lambda c: "create_branch" in c.unit or "Path.branch" in c.unit or "Path.activate" in c.unit) + rewrap(PROP, c01.returndata_cases(), "caller-sees-the-return-data")
 
 
 def build_cases(tier="quick"):
